@@ -10,7 +10,7 @@ SPEC_PART = dict(
              "cpc: in the correspondence run the model treats serialize+deserialize as the identity (that IS the property); the "
              "crate's copy must then reproduce every later observation of the model"],
     assumptions=["cpc: sketches inside the C05 domain (lg_k 4..26, 8C < 475K)"],
-    covers="cpc: for the tables translated on this run - each of the 22 Huffman codes is prefix-free and its 4096-entry decoding "
+    covers="cpc (PARTIAL: symbol-level coders + twin run; there is NO theorem deserialize(serialize(s)) = s for a CPC sketch, no Coq model of CompressedState::compress / uncompress, of the word framing of the two streams, nor of the reader; the whole-image round trip is an observation of the crate against a model in which the round trip is the identity). Proved, for the tables translated on this run - each of the 22 Huffman codes is prefix-free and its 4096-entry decoding "
            "table inverts its encoding table on every 12-bit window (c11_cpc_huffman_symbol), hence any window-byte sequence "
            "followed by anything decodes to itself (c11_cpc_window_roundtrip); the same for the length-limited unary code of column "
            "deltas (c11_cpc_unary65_symbol) and for a whole pair: unary column delta + unary/Golomb row delta with any number of base "
